@@ -307,6 +307,27 @@ def return_paths(trees):
     return out
 
 
+# ---- expressions that compute a `sorted=` flag: (file, function, variables whose assignments are quoted, in order)
+FLAG_EXPR_SITES = [("_umath.py", "broadcast_to", ["nonbroadcast_idx", "diff_nonbroadcast_idx", "sorted"])]
+
+
+def flag_exprs(trees):
+    out = []
+    for rel, qual, names in FLAG_EXPR_SITES:
+        if rel not in trees:
+            raise SiteError(f"flag-expression site: file {rel} missing")
+        fn = find_qualified(trees[rel][0], qual)
+        if fn is None:
+            raise SiteError(f"flag-expression site: {rel}:{qual} not found")
+        for var in names:
+            assigns = [n for n in ast.walk(fn) if isinstance(n, ast.Assign) and len(n.targets) == 1
+                       and isinstance(n.targets[0], ast.Name) and n.targets[0].id == var]
+            if len(assigns) != 1:
+                raise SiteError(f"flag-expression site: {rel}:{qual} assigns `{var}` {len(assigns)} times")
+            out.append((qual, var, ast.unparse(assigns[0].value)))
+    return out
+
+
 def prune_sites(trees):
     out = []
     for rel, qual, var, exact in PRUNE_SITES:
@@ -371,6 +392,10 @@ def generate(repo):
                "   sorts and deduplicates by *)\nDefinition linear_loc_returns : list (string * string * string) := [")
     rp = return_paths(trees)
     out.append(";\n".join(f"  ({coq_str(q)}, {coq_str(g)}, {coq_str(r)})" for q, g, r in rp))
+    out.append("].\n")
+    out.append("(* the statements that compute the `sorted=` flag broadcast_to passes to the constructor *)\n"
+               "Definition broadcast_sorted_rule : list (string * string * string) := [")
+    out.append(";\n".join(f"  ({coq_str(q)}, {coq_str(v)}, {coq_str(e)})" for q, v, e in flag_exprs(trees)))
     out.append("].\n")
     text = "\n".join(out)
     promising = [r for r in sites if r["flags"]["sorted"][0] != "FFalse" and r["flags"]["sorted"][0] != "FDefault"
